@@ -55,7 +55,7 @@ def run_replay(prop, ob, replay_spec):
     """replay_spec: {'func': name in replay/<prop>.py, 'inputs': json}.  Runs the real code
     under /venv.  Returns (confirmed: bool|None, output text)."""
     os.makedirs(REPLAY_DIR, exist_ok=True)
-    safe = ob['name'].replace('/', '_').replace(' ', '_').replace('#', '_')
+    safe = (ob['name'] + '@' + str(ob.get('target'))).replace('/', '_').replace(' ', '_').replace('#', '_')
     path = os.path.join(REPLAY_DIR, '%s_%s.json' % (prop, safe))
     doc = {'property': prop, 'obligation': ob['name'], 'target': ob.get('target'),
            'function': ob.get('function'), 'counter_model': ob.get('model'),
